@@ -12,7 +12,10 @@
    A context is modelled by what the statement can see of it:
      [parent  request whose span context is the context's current span ("none": no valid span context),
       links   sequence of requests registered as trace links (LinksFromContext),
-      inh     request whose caller context it still inherits cancellation and deadline from ("none": detached)]
+      inh     request whose caller context it still inherits cancellation and deadline from ("none": detached),
+      la      0, or the identity of the Go ARRAY behind the links slice when that array is also reachable from other
+              contexts (1 = the array of the upstream context handed in with "chain" requests; it has room for
+              UpCap links)]
 
    One action per critical section of the Go code:
      SendCore(r, a, t, D)  the producer calls ConsumeLogs(ctx_r): no queue -> the export pipeline runs in the caller's
@@ -34,14 +37,24 @@
    MergeSplit is BatcherSplit!SplitP of specs/Batcher (items sizer).  NumConsumers = 1 and one flush worker (the
    helper forces num_consumers = 1 when batching is configured), so export calls do not overlap.
 
-   Variant = "code" is the tree as it is.  The other variants are deliberately WRONG models used to show that the
-   clauses bite (checks/E03.py expects TLC to refute them):
+   Variant = "code": what the documentation needs and what the tree does for every request context that carries no
+   links of its own.  Variant = "alias" is the tree AS IT IS also for "chain" contexts (finding E03-links-alias):
+   contextWithMergedLinks appends to the slice returned by parentsFromContext(ctx1), i.e. -- when ctx1 has no span
+   context -- to the very slice stored in ctx1; if its array has room the new links are written INTO THAT ARRAY, which
+   every other context derived from the same upstream context shares: a second merge starting from the same
+   upstream context overwrites the links the first one registered (also in a batch that is already on its way).
+   Deviation, named: real traces are validated against "code" (the repaired behaviour); "alias" is used by the design
+   check to exhibit the defect (TLC must refute InvLinksComplete) and to show that nothing else goes wrong.
+   The remaining variants are deliberately WRONG models used to show that the clauses bite (checks/E03.py expects
+   TLC to refute them):
      "nodetach"          the queue stores the caller's context as it is
      "shared_deadline"   the timeout is applied once, outside the retry loop
      "drop_first"        a merge registers only the links of the incoming request *)
 EXTENDS ExportContextObs, BatcherSplit
 
 CONSTANTS MaxAttempts, Variant
+
+UpCap == 4     \* capacity of the links array of the upstream context: three links, appended one by one (1 -> 2 -> 4)
 
 VARIABLES
   queue,      \* the sending queue: sequence of [req, n, ctx]
@@ -56,15 +69,28 @@ implVars == <<queue, cur, cfl, tfl, infl, cancelled, stopping, now>>
 vars == <<obsVars, implVars>>
 
 ---------------------------------------------------------------------------
-Background      == [parent |-> "none", links |-> <<>>, inh |-> "none"]
-CallerCtx(r, a) == [parent |-> IF a.sc # "none" THEN r ELSE "none", links |-> <<>>, inh |-> r]
+Background      == [parent |-> "none", links |-> <<>>, inh |-> "none", la |-> 0]
+CallerCtx(r, a) == IF a.sc = "chain" THEN [parent |-> "none", links |-> a.up, inh |-> r, la |-> 1]
+                   ELSE [parent |-> IF a.sc # "none" THEN r ELSE "none", links |-> <<>>, inh |-> r, la |-> 0]
 \* context.WithoutCancel: values (span context, links) stay, cancellation and deadline do not
 Detach(c)       == IF Variant = "nodetach" THEN c ELSE [c EXCEPT !.inh = "none"]
 \* parentsFromContext: the span context if there is a valid one, otherwise the registered links
 Parents(c)      == IF c.parent # "none" THEN <<c.parent>> ELSE c.links
-\* contextWithMergedLinks: a NEW context on context.Background() with the links of both
+\* contextWithMergedLinks: a NEW context on context.Background() with the links of both.
+\* append(parentsFromContext(c1), parentsFromContext(c2)...) writes into c1's array when c1 has no span context and
+\* the array has room (InPlace); otherwise the result lives in a new array nobody else knows.
+InPlace(c1, c2) == /\ Variant = "alias" /\ c1.parent = "none" /\ c1.la # 0
+                   /\ Parents(c2) # <<>> /\ Len(c1.links) + Len(Parents(c2)) <= UpCap
 Merged(c1, c2)  == [parent |-> "none", inh |-> "none",
-                    links |-> IF Variant = "drop_first" THEN Parents(c2) ELSE Parents(c1) \o Parents(c2)]
+                    links |-> IF Variant = "drop_first" THEN Parents(c2) ELSE Parents(c1) \o Parents(c2),
+                    la |-> IF InPlace(c1, c2) THEN c1.la ELSE 0]
+\* the effect of that in-place append on ANOTHER context x whose links live in the same array
+Clobber(x, c1, c2) == IF InPlace(c1, c2) /\ x.la = c1.la
+                        THEN [x EXCEPT !.links = [j \in DOMAIN x.links |->
+                                 IF j > Len(c1.links) /\ j <= Len(c1.links) + Len(Parents(c2))
+                                   THEN Parents(c2)[j - Len(c1.links)] ELSE x.links[j]]]
+                        ELSE x
+ClobberB(b, c1, c2) == [b EXCEPT !.ctx = Clobber(b.ctx, c1, c2)]
 \* obsQueue.Offer starts the span "exporter/enqueue" before the request is stored: with a recording tracer (cfg.enq)
 \* the stored context has a valid span context even if the producer's context had none
 EnqCtx(r, a)    == [CallerCtx(r, a) EXCEPT !.parent = IF cfg.enq THEN r ELSE @]
@@ -135,7 +161,12 @@ ConsumeAt(i) ==
                          IN /\ cur' = IF keepLast THEN B(rest[Len(rest)], q.ctx)
                                       ELSE IF flushFirst THEN NoBatch ELSE first
                             /\ cfl' = IF flushFirst THEN <<first>> \o restFl ELSE restFl
-  /\ UNCHANGED <<obsVars, tfl, infl, cancelled, stopping, now>>
+  \* (alias) batches on their way whose links share the array written by this merge
+  /\ IF cfg.batch /\ ~cur.none /\ InPlace(cur.ctx, queue[i].ctx)
+       THEN /\ tfl' = [k \in DOMAIN tfl |-> ClobberB(tfl[k], cur.ctx, queue[i].ctx)]
+            /\ infl' = [k \in DOMAIN infl |-> [infl[k] EXCEPT !.b = ClobberB(@, cur.ctx, queue[i].ctx)]]
+       ELSE UNCHANGED <<tfl, infl>>
+  /\ UNCHANGED <<obsVars, cancelled, stopping, now>>
 
 \* flushCurrentBatchIfNecessary: timer goroutine, and defaultBatcher.Shutdown (a second caller: while the timer
 \* goroutine still waits for the flush worker, Shutdown may take a batch the consumer has started since)
@@ -212,12 +243,23 @@ Quiescent == stopping /\ queue = <<>> /\ cur.none /\ cfl = <<>> /\ tfl = <<>> /\
 ---------------------------------------------------------------------------
 (* What the CODE does where the documentation is silent (facts of this model, not clauses of the statement) *)
 \* S2/S3: with the items sizer a batch is connected to exactly the requests whose data it holds, each once
+OwnSpans(r)  == IF cfg.enq THEN {r} ELSE Spans(r)
 ExactOrigins == \A k \in DOMAIN calls :
-                   /\ Origins(calls[k]) = IF cfg.queue = "persistent" THEN {} ELSE {r \in Contrib(calls[k]) : HasSpan(r) \/ cfg.enq}
-                   /\ Cardinality(SetOf(calls[k].links)) = Len(calls[k].links)
+                   /\ Origins(calls[k]) = IF cfg.queue = "persistent" THEN {} ELSE UNION {OwnSpans(r) : r \in Contrib(calls[k])}
+                   /\ (\A r \in Contrib(calls[k]) : attr[r].sc # "chain") => Cardinality(SetOf(calls[k].links)) = Len(calls[k].links)
 \* S1: a batch made of one request keeps that request's span context as the parent, a merged batch has no parent
 SingleKeepsParent == \A k \in DOMAIN calls :
                    IF Cardinality(Contrib(calls[k])) = 1 /\ cfg.queue # "persistent"
-                     THEN calls[k].links = <<>> /\ (\A r \in Contrib(calls[k]) : (HasSpan(r) \/ cfg.enq) => calls[k].parent = r)
+                     THEN \A r \in Contrib(calls[k]) :
+                            IF attr[r].sc = "chain" /\ ~cfg.enq THEN calls[k].parent = "none" /\ calls[k].links = attr[r].up
+                            ELSE calls[k].links = <<>> /\ (OwnSpans(r) # {} => calls[k].parent = r)
                      ELSE calls[k].parent = "none"
+
+(* Finding E03-links-alias (Variant = "alias", the tree as it is): LinksComplete fails for a batch that holds a "chain"
+   request -- the links registered after the upstream ones were overwritten through the shared array.  Everything
+   else must still hold: the design check runs "alias" with LinksComplete in the form Inv \/ KnownAlias. *)
+KnownAlias(cs, k) == /\ Variant = "alias"
+                     /\ \E r \in Contrib(cs[k]) : /\ attr[r].sc = "chain" /\ Len(cs[k].links) >= Len(attr[r].up)
+                                                  /\ SubSeq(cs[k].links, 1, Len(attr[r].up)) = attr[r].up
+InvLinksCompleteOrKnown == \A k \in DOMAIN calls : LinksComplete(calls, k) \/ KnownAlias(calls, k)
 =============================================================================
